@@ -26,6 +26,9 @@ class ModbusSim(PeerBase):
 
     def send_answer(self, s, resp, n):
         """the answer after `delay`; with frag = (k, gap) in two pieces (the first k bytes, the rest `gap` later)"""
+        xd = getattr(self, "exc_delay", 0.0)
+        if xd and ((resp[0:2] == b"\xaa\x55" and len(resp) > 3 and resp[3] & 0x80) or (resp[0:2] != b"\xaa\x55" and len(resp) > 7 and resp[7] & 0x80)):
+            return self.send(s, resp, self.delay + xd, n)       # firmware that is slow to refuse (exception answers come late)
         fr = getattr(self, "frag", None)
         if fr and len(resp) > fr[0]:
             self.send(s, resp[:fr[0]], self.delay, n, 1)
